@@ -710,3 +710,221 @@ func isSquareNTimes(f *ssa.Function) bool {
 	}
 	return cl.loop.Blocks[call.Block()]
 }
+
+// ---------------------------------------------------------------------------
+// K7 — dependency signature of the mixed point addition used by the precomputed tables
+
+type depset map[string]bool
+
+func (d depset) union(o depset) depset {
+	r := depset{}
+	for k := range d {
+		r[k] = true
+	}
+	for k := range o {
+		r[k] = true
+	}
+	return r
+}
+
+func (d depset) String() string {
+	return "{" + strings.Join(core.SortedKeys(d), ",") + "}"
+}
+
+// RuleK7 — ExtendedAddNormalized is the unified (complete) addition law: dependency analysis of its field operations.
+func RuleK7(c *Ctx) {
+	c.Rule("K7", "unified addition law: in bandersnatch.ExtendedAddNormalized the output coordinates X, Y and Z each depend on the curve constant D and on both operands, T on both operands (dependency analysis over the field operations). The addition formulas that do not involve d are not valid when both operands are the same point, which the signed-digit table lookup can produce")
+	fn := c.P.Fn("bandersnatch", "", "ExtendedAddNormalized")
+	if fn == nil {
+		c.Unresolved("K7", "bandersnatch.ExtendedAddNormalized")
+		return
+	}
+	c.Saw(core.FnName(fn))
+	if len(fn.Blocks) != 1 {
+		c.Und("K7", "ExtendedAddNormalized:straight-line", fn.Pos(), "ExtendedAddNormalized is no longer straight-line code; the dependency analysis does not follow branches")
+		return
+	}
+	ops := symOps[depset]{
+		leaf: func(a ssa.Value) (depset, bool) {
+			p := core.PathOf(a)
+			switch {
+			case strings.HasSuffix(p, "CurveParams.D"):
+				return depset{"D": true}, true
+			case strings.HasSuffix(p, "CurveParams.A"):
+				return depset{"A": true}, true
+			case strings.HasPrefix(p, "p:p1.") || strings.HasPrefix(p, "p:p2."):
+				return depset{strings.TrimPrefix(p, "p:"): true}, true
+			}
+			return nil, false
+		},
+		apply: func(m string, args []depset, _ *ssa.Call) (depset, bool) {
+			r := depset{}
+			for _, a := range args {
+				r = r.union(a)
+			}
+			return r, true
+		},
+		helper: func(call *ssa.Call, get func(ssa.Value) (depset, bool), set func(ssa.Value, depset)) bool {
+			// in/out helpers on one element (MulBy5 and friends): dependencies unchanged
+			f := core.Callee(call.Common())
+			return f != nil && f.Signature.Recv() == nil && len(call.Call.Args) == 1 && strings.HasPrefix(f.Name(), "MulBy")
+		},
+	}
+	state, _ := symEval(fn, fn.Blocks, ops)
+	out := map[string]depset{}
+	for v, d := range state {
+		p := core.PathOf(v)
+		if strings.HasPrefix(p, "p:p.") {
+			out[strings.TrimPrefix(p, "p:p.")] = d
+		}
+	}
+	ok := true
+	var why, got []string
+	for _, coord := range []string{"X", "Y", "Z", "T"} {
+		d := out[coord]
+		got = append(got, coord+"<-"+d.String())
+		if d == nil {
+			ok = false
+			why = append(why, "coordinate "+coord+" of the result is not computed from the operands")
+			continue
+		}
+		has1, has2 := false, false
+		for k := range d {
+			if strings.HasPrefix(k, "p1.") {
+				has1 = true
+			}
+			if strings.HasPrefix(k, "p2.") {
+				has2 = true
+			}
+		}
+		if !has1 || !has2 {
+			ok = false
+			why = append(why, "coordinate "+coord+" does not depend on both operands")
+		}
+		if coord != "T" && !d["D"] {
+			ok = false
+			why = append(why, "coordinate "+coord+" does not depend on the curve constant D: a d-free addition formula is not valid for equal operands (doubling), so the table-based MSM returns a wrong point whenever the accumulator equals the table entry being added")
+		}
+	}
+	c.Check(ok, "K7", "ExtendedAddNormalized:unified-law", fn.Pos(), strings.Join(why, "; ")+" ["+strings.Join(got, " ")+"]", strings.Join(got, " "))
+}
+
+// ---------------------------------------------------------------------------
+// R1 — structure of the dyadic discrete-log reconstruction (fp/sqrt.go)
+
+// RuleR1 — every loop of the square-root code runs its full, fixed range; every block of the discrete log is accumulated.
+func RuleR1(c *Ctx) {
+	c.Rule("R1", "fixed ranges in the square-root code: every loop of bandersnatch/fp's table-driven square root is a counted loop left only through its bound test (no break or return out of a loop body), so every 8-bit block of the discrete logarithm and every table row is processed; in invSqrtEqDyadic the `negExponent |= newBits << shift` update is executed on every iteration of the block loop, with shift = BlockSize*i - FirstBlockUnusedBits")
+	var fns []*ssa.Function
+	for _, top := range c.P.TopFuncs() {
+		if top.Pkg == nil || !strings.HasSuffix(top.Pkg.Pkg.Path(), "bandersnatch/fp") {
+			continue
+		}
+		for _, f := range core.Family(top) {
+			if len(f.Blocks) > 0 {
+				fns = append(fns, f)
+			}
+		}
+	}
+	nLoops := 0
+	for _, fn := range fns {
+		loops := core.Loops(fn)
+		if len(loops) == 0 {
+			continue
+		}
+		c.Saw(core.FnName(fn))
+		cls := countedLoops(fn)
+		for li, l := range loops {
+			nLoops++
+			key := fmt.Sprintf("%s:loop#%d", core.FnName(fn), li)
+			var exits []string
+			for b := range l.Blocks {
+				for _, s := range b.Succs {
+					if _, isPanic := s.Instrs[len(s.Instrs)-1].(*ssa.Panic); isPanic {
+						continue // aborting is not skipping
+					}
+					if !l.Blocks[s] && b != l.Header {
+						pos := b.Instrs[len(b.Instrs)-1].Pos()
+						for k := len(b.Instrs) - 1; k >= 0 && !pos.IsValid(); k-- {
+							pos = b.Instrs[k].Pos()
+						}
+						exits = append(exits, c.P.Pos(pos))
+					}
+				}
+			}
+			counted := false
+			for _, cl := range cls {
+				if cl.loop.Header == l.Header {
+					counted = true
+				}
+			}
+			switch {
+			case len(exits) > 0:
+				c.Bad("R1", key, l.Header.Instrs[0].Pos(), fmt.Sprintf("%s leaves a loop from inside its body (near %s): the remaining iterations — blocks of the discrete logarithm, squarings or table rows — are skipped, so the result is wrong for the inputs that take that exit", core.FnName(fn), strings.Join(exits, ", ")))
+			case !counted:
+				c.Und("R1", key, l.Header.Instrs[0].Pos(), core.FnName(fn)+" has a loop that is not a counted `for i := a; i < b; i++` loop; its range cannot be decided")
+			default:
+				c.OK("R1", key, l.Header.Instrs[0].Pos(), "counted loop, left only through its bound test")
+			}
+		}
+	}
+	c.FloorN("R1", 8, nLoops, "loops of the square-root code")
+
+	// the accumulation in invSqrtEqDyadic
+	fn := c.P.Fn("bandersnatch/fp", "", "invSqrtEqDyadic")
+	if fn == nil {
+		c.Unresolved("R1", "fp.invSqrtEqDyadic")
+		return
+	}
+	bs, un := c.constOf("bandersnatch/fp", "sqrtParam_BlockSize"), c.constOf("bandersnatch/fp", "sqrtParam_FirstBlockUnusedBits")
+	var found []string
+	okAcc := false
+	for _, cl := range countedLoops(fn) {
+		for b := range cl.loop.Blocks {
+			for _, ins := range b.Instrs {
+				or, isOr := ins.(*ssa.BinOp)
+				if !isOr || or.Op != token.OR {
+					continue
+				}
+				// acc |= v << shift, acc a header phi of this loop fed back by the OR
+				var acc *ssa.Phi
+				var shl *ssa.BinOp
+				for _, pair := range [][2]ssa.Value{{or.X, or.Y}, {or.Y, or.X}} {
+					if phi, isPhi := pair[0].(*ssa.Phi); isPhi && phi.Block() == cl.loop.Header {
+						if s, isS := pair[1].(*ssa.BinOp); isS && s.Op == token.SHL {
+							acc, shl = phi, s
+						}
+					}
+				}
+				if acc == nil {
+					continue
+				}
+				feeds := false
+				for _, e := range acc.Edges {
+					if e == ssa.Value(or) {
+						feeds = true
+					}
+				}
+				if !feeds {
+					continue
+				}
+				// executed on every iteration: the OR's block dominates every latch
+				every := true
+				for _, p := range cl.loop.Header.Preds {
+					if cl.loop.Blocks[p] && !b.Dominates(p) {
+						every = false
+					}
+				}
+				f := linOf(shl.Y, cl.phi, nil)
+				a0, isA := core.ConstInt(cl.init)
+				bd := linOf(cl.bound, nil, nil)
+				found = append(found, fmt.Sprintf("acc |= bits << (%d*i%+d) for i in [%d,%d), every iteration: %v", f.a, f.b, a0, bd.b, every))
+				if every && f.ok && f.a == bs && f.b == -un && isA && a0 == 1 && bd.ok && bd.b == c.constOf("bandersnatch/fp", "sqrtParam_Blocks") && cl.step == 1 && cl.op == token.LSS {
+					okAcc = true
+				}
+			}
+		}
+	}
+	c.Check(okAcc, "R1", "invSqrtEqDyadic:every-block-accumulated", fn.Pos(), fmt.Sprintf("invSqrtEqDyadic does not accumulate the newly found bits of every block i in [1,Blocks) at bit position %d*i-%d on every iteration [found: %s]", bs, un, strings.Join(found, "; ")),
+		strings.Join(found, "; "))
+}
